@@ -53,6 +53,12 @@ SeqPre(o, s) ==
   /\ (o.op = "append!" => o.v # o.w)
   /\ (o.op \in {"append", "append!", "append-reverse", "concatenate", "vector-append", "vector-concatenate"} => Len(s[o.v]) + Len(s[o.w]) <= 40)
   /\ (o.op = "append-map" => Len(s[o.v]) <= 30)
+  /\ (o.op \in {"take", "drop", "take-right", "drop-right", "split-at"} => o.x <= Len(s[o.v]))
+  /\ (o.op \in {"subvector", "vector-reverse-copy", "vector-reverse!", "vector-fill!", "reverse-vector->list", "vector->list", "vector-copy"}
+        => Len(o.ks) = 2 /\ o.ks[1] <= o.ks[2] /\ o.ks[2] <= Len(s[o.v]))
+  /\ (o.op \in {"vector-copy!", "vector-reverse-copy!"}
+        => Len(o.ks) = 3 /\ o.ks[2] <= o.ks[3] /\ o.ks[3] <= Len(s[o.w]) /\ o.ks[1] + (o.ks[3] - o.ks[2]) <= Len(s[o.v]))
+  /\ (o.op = "vector-swap!" => Len(o.ks) = 2 /\ o.ks[1] < Len(s[o.v]) /\ o.ks[2] < Len(s[o.v]))
 SeqEval(o, s, M) ==
   LET A == s[o.v]  C == s[o.w]  n == Len(s[o.v])
       P(e) == Pred(o.x, o.k, e)
